@@ -2080,7 +2080,17 @@ def m_cttz(e, st, args, I):
     return w if x == 0 else (x & -x).bit_length() - 1
 
 
+def m_abs(e, st, args, I):
+    x = args[0]
+    w = I.ty[1]
+    if not is_sym(x):
+        sx = to_signed(x, w)
+        return (-sx if sx < 0 else sx) & mask(w)
+    return z3.If(x < 0, -x, x)
+
+
 INTRINSICS = {
+    "llvm.abs": m_abs,
     "llvm.ctlz": m_ctlz, "llvm.cttz": m_cttz,
     "llvm.fabs": m_f1(abs), "llvm.sqrt": m_f1(lambda x: math.sqrt(x) if x >= 0 else math.nan),
     "llvm.floor": m_f1(math.floor), "llvm.ceil": m_f1(math.ceil), "llvm.round": m_f1(_round_half_away), "llvm.trunc": m_f1(math.trunc),
